@@ -7,7 +7,7 @@
 (* the operators they use, so a malformed value is a failed clause and     *)
 (* never a TLC evaluation error.                                           *)
 (***************************************************************************)
-EXTENDS FMOps
+EXTENDS FMMetrics
 
 \* A clause is <<name, truth>> or <<name, truth, why>>: `why` names the deviation
 \* (a known finding modelled in the specification) that explains a failure, or "".
@@ -93,9 +93,6 @@ ClassifyClauses(c) ==
 
 ---------------------------------------------------------------------------
 (* Model queries (C03) *)
-HolderKind(m, f) == IF HoldersOf(m, f) = {} THEN "none" ELSE KindOf(HolderOf(m, f))
-HasRelKind(m, f, k) == \E i \in DOMAIN RelsOf(m, f) : KindOf(RelsOf(m, f)[i]) = k
-NGroupRels(m, f) == Cardinality({i \in DOMAIN RelsOf(m, f) : IsGroupRel(RelsOf(m, f)[i])})
 Filter(m, P(_)) == SelectSeq(NameSeq(m), P)
 Idx(s) == [i \in DOMAIN s |-> i]
 CtcIdx(R, k(_)) == SelectSeq(Idx(R.ctc), LAMBDA i : k(R.ctc[i].preds))
@@ -137,7 +134,8 @@ QueryClauses(cur, e) ==
      <<"C03.feature.or_group",  AllF(LAMBDA q, f : q.is_or_group  = HasRelKind(m, f, "or"))>>,
      <<"C03.feature.alternative_group", AllF(LAMBDA q, f : q.is_alternative_group = HasRelKind(m, f, "alternative"))>>,
      <<"C03.feature.mutex_group",       AllF(LAMBDA q, f : q.is_mutex_group = HasRelKind(m, f, "mutex"))>>,
-     <<"C03.feature.cardinality_group", AllF(LAMBDA q, f : q.is_cardinality_group = HasRelKind(m, f, "cardinality"))>>,
+     <<"C03.feature.cardinality_group", AllF(LAMBDA q, f : q.is_cardinality_group =
+                                            (\E i \in DOMAIN RelsOf(m, f) : IsGroupRel(RelsOf(m, f)[i]) /\ KindOf(RelsOf(m, f)[i]) = "cardinality"))>>,
      <<"C03.feature.group",     AllF(LAMBDA q, f : q.is_group = (NGroupRels(m, f) >= 1))>>,
      <<"C03.feature.multigroup", AllF(LAMBDA q, f : q.is_multiple_group_decomposition = (NGroupRels(m, f) > 1))>>,
      <<"C03.feature.boolean",   AllF(LAMBDA q, f : q.is_boolean   = (FeatOf(m, f).ftype = "Boolean"))>>,
@@ -181,7 +179,50 @@ ExecClauses(cur, e) ==
      <<p \o "." \o op \o ".total", e.out = "value">>,
      <<p \o "." \o op \o ".shape", e.out = "value" => R.bad = <<>> >>,
      <<"C19.fresh." \o op, \A i \in same : cur.memo[i].out = e.out /\ cur.memo[i].ret = R>> >>
-  \o Guarded(ok, OpValueClauses(m, op, e.args.f, R))
+  \o Guarded(ok, IF op = "metrics" THEN MetricsClauses(m, e.args, R) ELSE OpValueClauses(m, op, e.args.f, R))
+
+---------------------------------------------------------------------------
+(* Random attribute generation (C19), the one mutating operation.          *)
+(* args: name, leaves, unset, elems : Seq(token), ranges : Seq([isint, lo, *)
+(* hi]) with bounds scaled by args.scale; ret.added : Seq([f, tok, isnum,  *)
+(* isint, num]) describes the attribute named args.name of every feature   *)
+(* after the call.                                                         *)
+InDomain(args, a) ==
+  \/ \E k \in DOMAIN args.elems : args.elems[k] = a.tok
+  \/ /\ a.isnum
+     /\ \E k \in DOMAIN args.ranges :
+           LET rg == args.ranges[k]
+           IN  /\ rg.lo <= a.num /\ a.num <= rg.hi
+               /\ rg.isint => (a.isint /\ a.num % args.scale = 0)
+HasAttr(ft, n) == \E k \in DOMAIN ft.attrs : ft.attrs[k].name = n
+GenAttrClauses(cur, e) ==
+  LET m == cur.model
+      p == e.post
+      A == e.args
+      same == Len(p.feats) = Len(m.feats) /\ \A i \in DOMAIN m.feats : p.feats[i].name = m.feats[i].name
+      Targeted(i) == (~A.leaves \/ IsLeaf(m, m.feats[i].name)) /\ ~HasAttr(m.feats[i], A.name)
+      NewAttr(i) == p.feats[i].attrs[Len(p.feats[i].attrs)]
+  IN
+  IF A.unset
+  THEN << <<"C19.gen.nodomain", e.out = "error:FlamaException">>,
+          <<"C19.gen.nodomain.untouched", p = m>> >>
+  ELSE
+  << <<"C19.gen.total", e.out = "value">>,
+     <<"C19.gen.shape", e.anom = <<>> /\ same>> >>
+  \o Guarded(e.out = "value" /\ e.anom = <<>> /\ same /\ WellFormedTree(m),
+  << <<"C19.gen.added", \A i \in DOMAIN m.feats : Targeted(i) =>
+          /\ Len(p.feats[i].attrs) = Len(m.feats[i].attrs) + 1
+          /\ SubSeq(p.feats[i].attrs, 1, Len(m.feats[i].attrs)) = m.feats[i].attrs
+          /\ NewAttr(i).name = A.name /\ NewAttr(i).owner = m.feats[i].name>>,
+     <<"C19.gen.value", \A k \in DOMAIN e.ret.added :
+          LET a == e.ret.added[k]
+              i == CHOOSE i \in DOMAIN m.feats : m.feats[i].name = a.f
+          IN  Targeted(i) => InDomain(A, a)>>,
+     <<"C19.gen.untouched",
+          /\ p.root = m.root /\ p.rels = m.rels /\ p.ctcs = m.ctcs
+          /\ \A i \in DOMAIN m.feats :
+                /\ ~Targeted(i) => p.feats[i] = m.feats[i]
+                /\ [p.feats[i] EXCEPT !.attrs = <<>>] = [m.feats[i] EXCEPT !.attrs = <<>>]>> >>)
 
 ---------------------------------------------------------------------------
 ClassifyEventClauses(cur, e) ==
@@ -193,10 +234,11 @@ Clauses(cur, e) ==
     [] e.a = "Load"           -> LoadClauses(cur, e)
     [] e.a = "Classify"       -> ClassifyEventClauses(cur, e)
     [] e.a = "Exec"           -> ExecClauses(cur, e)
+    [] e.a = "GenAttr"        -> GenAttrClauses(cur, e)
     [] OTHER                  -> << <<"T.unknown-action", FALSE>> >>
 
 Advance(cur, e) ==
-  CASE e.a \in BuilderActions \cup {"Query", "Load"} -> [cur EXCEPT !.model = e.post]
+  CASE e.a \in BuilderActions \cup {"Query", "Load", "GenAttr"} -> [cur EXCEPT !.model = e.post]
     [] e.a = "Exec" -> [cur EXCEPT !.model = e.post,
                                    !.memo = Append(@, [op |-> e.args.op, f |-> e.args.f, model |-> cur.model,
                                                        out |-> e.out, ret |-> e.ret])]
